@@ -46,6 +46,7 @@ CHECKS = {
          "the items left by each flag assignment, the empty version dropped) yields exactly the documented alternatives, in the documented order and multiplicity; Opt.wfB_sound (the driver's executable test implies the hypothesis); "
          "Opt.newIndex_count / newIndex_none (in an alternative, a reference to a kept item becomes 1 + the number of kept items before it; an omitted item has no new index). "
          "Trees outside the hypothesis (a group in a second pair of brackets) are compared per rule, up to repeated alternatives, which can never fire. "
+         "Tie T1: the loop headers, the swap / duplicate / overlap / subsumption conditions, the erase statements and the order of the recursive calls that the model transcribes are re-extracted from PostParser.cpp on every run (OptGen.*_as_modelled). "
          "Tie: the driver replaces every rule with optional items by its alternatives and requires of the real font: rule count and order, the FSM of every alternative certified for all glyph "
          "strings (C02 theorem), sort keys / pre-contexts / start states (C06), substitution classes and @n / association offsets still denoting the same original item (C04 + offset model); "
          "programs in which some alternative refers to an omitted item must be rejected with error 1103."),
